@@ -8,6 +8,7 @@ buffer when BucketWriter publishes the share by rename, and nothing writes share
 data after that rename (DESIGN.md section 5, C29)."""
 from sa.h import *
 from fractions import Fraction
+from sa.rules.C25 import hashed_representation_closed      # one necessary condition, two properties
 
 EXPLANATION = (
     "Decided (structural): (1) ShareFile.add_lease packs the new lease count (so an unencodable count raises before "
@@ -43,6 +44,13 @@ EXPLANATION = (
     "function itself must be closed/flushed before the rename. (8) After the publishing rename no data-writing "
     "ShareFile method (one that write()s/truncate()s outside the lease helpers), no BucketWriter helper reaching one "
     "and no write through a kept file object is reachable. "
+    "(9) A lease-only operation does not cost the share the lease it touches: the record a renewal writes back into a "
+    "hashed-secret (v2) container stays in the hashed representation, so that its secrets are not hashed a second time "
+    "(after which neither secret would match the lease any more - the share has silently lost it). Decided with the "
+    "closure check shared with C25.12: HashedLeaseSerializer.serialize hashes only under a type test no wrapper object "
+    "passes, the wrapper class is not a plain-lease subclass, every used lease-producing method of the proxied interface "
+    "(renew) is overridden by the wrapper with wrapper-typed returns only, and the containers write back only given / "
+    "stored / wrapper-derived leases. "
     "Undecided (value level): that callers pass lease_number == 4 + stored count when they append a mutable lease; which "
     "secret a lease holds (renew/cancel matching itself, expiry comparisons, NoSpace accounting belong to the lease "
     "properties); the value get_length() reports (_length); negative offsets / oversize writes in write_share_data "
@@ -1237,3 +1245,14 @@ def run(ctx: Context):
                         r.violation(m, m.loc(cc), "%s %s after %s has already made the share visible: a kill in between "
                                     "leaves a published share that is not complete" % (short(m), bad, src(m, c)),
                                     witness(mcfg, par, (i, 0)))
+
+    # ---------------------------------------------------------------- 9. a lease-only operation keeps the lease it rewrites
+    with ctx.rule("C29.9", "R1", "the lease a renewal writes back into a hashed-secret container stays in the hashed "
+                  "representation (serialize hashes only provably un-hashed leases; the wrapper overrides every used "
+                  "lease-producing ILeaseInfo method and returns wrappers; containers write back only given / stored / "
+                  "wrapper-derived leases) - otherwise the secrets are hashed twice and the share has lost the lease",
+                  expected=4) as r:
+        hashed_representation_closed(
+            idx, cg, r, "a lease-only operation (renew_lease, or add_lease / allocate_buckets / a slot write taking the renew "
+            "path) silently replaces a lease the share holds by a record that neither its renew nor its cancel secret "
+            "matches: the share has lost that lease although no error was raised and no data was written")
